@@ -21,6 +21,7 @@
           `seq` (positions taken from the caller's listing and applied to the ordered buffer make the initial
           simplex, hence the result, depend on the listing order).
 Not decided: order-independence of the result as a whole, uniqueness of the Delaunay triangulation."""
+from collections import defaultdict
 import flow
 import gate
 import pair
@@ -73,6 +74,8 @@ def run(ctx):
         _orderhash(ctx, cfg, prog, mod)
         _accumfold(ctx, cfg, prog, mod)
         _staticflow(ctx, cfg, prog, mod)
+        _threadstate(ctx, cfg, prog)
+        _epsorder(ctx, cfg, prog, mod)
         rts = roots(prog, mod)
         ctx.floor('determinism roots (constructors + exported &mut operations)', 30, len(rts), cfg)
         reach = prog.reachable_from(rts)
@@ -628,6 +631,74 @@ STATIC_TABLE = {
     'core::algorithms::flips::should_emit_ridge_debug': 'rate limit of one debug log line (its only caller logs or does not log)',
     'core::algorithms::locate::conflict_debug_config': 'debug-logging switches read once from the environment; consulted only around tracing calls',
 }
+
+
+# functions that may touch thread-local state, with the reason
+THREADSTATE_TABLE = {
+    'core::delaunay_triangulation::HeuristicRebuildRecursionGuard::enter':
+        'recursion guard of the heuristic rebuild: depth counter incremented on entry and restored by Drop (scoped, RAII)',
+    'core::delaunay_triangulation::HeuristicRebuildRecursionGuard::in_progress':
+        'reads the depth counter of the recursion guard: true only inside a rebuild that is running on this thread',
+    '<core::delaunay_triangulation::HeuristicRebuildRecursionGuard as std::ops::Drop>::drop':
+        'restores the depth counter saved by enter()',
+}
+
+
+def _threadstate(ctx, cfg, prog):
+    """THREADSTATE (who-may-call): thread-local storage outlives a construction and differs between threads, and a
+    `thread_local!` / `static` inside a generic function is ONE item for all its instantiations (a table cached for the
+    first dimension used on a thread is served to every later dimension).  Only the scoped recursion guard may call
+    `LocalKey::with` / `try_with` / `set` / `get` / `take` / `replace`."""
+    ctx.rule('THREADSTATE', 'thread-local state is touched only by the scoped recursion guard of the heuristic rebuild')
+    n = 0
+    by_root = defaultdict(list)
+    for q, b in sorted(prog.bodies.items()):
+        if '::tests::' in q or not b.file.startswith('src/'):
+            continue
+        for bb, t in b.calls():
+            name = t.callee or t.resolved or ''
+            if 'thread::LocalKey' in name or 'thread::local::LocalKey' in name:
+                by_root[b.root or q].append((t.line, b.file, name.rsplit('::', 1)[-1]))
+    for root, lst in sorted(by_root.items()):
+        n += len(lst)
+        why = THREADSTATE_TABLE.get(root)
+        ctx.ob('THREADSTATE', root, cfg, why is not None,
+               '%d access(es) to thread-local state (%s): %s' % (len(lst), sorted({x[2] for x in lst}), why) if why else
+               '%d access(es) to thread-local state (%s) at line(s) %s outside the recursion guard: state that survives from one '
+               'construction to the next on the same thread (and is shared by every instantiation of a generic function) can '
+               'change what the same input produces' % (len(lst), sorted({x[2] for x in lst}), [x[0] for x in lst][:4]),
+               site='%s:%d' % (lst[0][1], lst[0][0]))
+    ctx.floor('thread-local accesses of the recursion guard', 2, n, cfg)
+
+
+PREPROCESS = 'core::delaunay_triangulation::DelaunayTriangulation::preprocess_vertices_for_construction'
+
+
+def _epsorder(ctx, cfg, prog, mod):
+    """EPSORDER (after fix F27): the epsilon de-duplication passes keep the first vertex they visit of a group of
+    near-duplicates, so under a value-based insertion order their input must already be in a listing-independent order:
+    the vertex vector handed to each `dedup_vertices_epsilon_*` call in `preprocess_vertices_for_construction` has an
+    `order_vertices_*` call in its backward slice."""
+    ctx.rule('EPSORDER', 'the epsilon de-duplication is fed vertices in a canonical order')
+    b = ctx.anchor(cfg, PREPROCESS)
+    if b is None:
+        return
+    al = mod.aliases(PREPROCESS)
+    n = 0
+    for bb, t in b.calls():
+        name = t.resolved or t.callee or ''
+        if 'dedup_vertices_epsilon' not in name or not t.args or t.args[0].place is None:
+            continue
+        n += 1
+        leaves = valueflow.sources(b, al, t.args[0].place.local)
+        ordered = sorted({(l[1].resolved or l[1].callee).rsplit('::', 1)[-1] for l in leaves if l[0] == 'call' and
+                          'order_vertices' in (l[1].resolved or l[1].callee or '')})
+        ctx.ob('EPSORDER', '%s|%s' % (PREPROCESS, name.rsplit('::', 1)[-1]), cfg, bool(ordered),
+               'input of %s passes %s' % (name.rsplit('::', 1)[-1], ordered) if ordered else
+               'input of %s is the caller\'s listing: the first-visited survivor of a group of near-duplicates depends on the '
+               'order in which the caller listed them, also under Lexicographic / Morton / Hilbert ordering' % name.rsplit('::', 1)[-1],
+               site='%s:%d' % (b.file, t.line))
+    ctx.floor('epsilon de-duplication calls in the construction preprocessing', 1, n, cfg)
 
 
 def _staticflow(ctx, cfg, prog, mod):
